@@ -338,9 +338,11 @@ def lines_for_c14(rng, n):
             h = boundary_hash(rng, pos, val)
             add("E json " + hx(h))
             add("E cbor " + hx(h))
+            add("E bin " + hx(h))
     for v in (0, 9, 10, 23, 24, 99, 100, 254, 255):
         add("E json " + hx(bytes([v]) * 32))
         add("E cbor " + hx(bytes([v]) * 32))
+        add("E bin " + hx(bytes([v]) * 32))
     for val in range(256):
         h = boundary_hash(rng, rng.randrange(32), val)
         add("E json " + hx(h))
